@@ -99,6 +99,11 @@ def r1_line_comment_discipline(w):
                     if any(isinstance(v, (Const, kf.IntGe)) and (getattr(v, 'v', None) or getattr(v, 'n', 0)) for v in _stores(s1, 'MarkupLine.breaks')):
                         how.add('markup line closed with breaks >= 1')
                         continue
+                    # the same, with the line built as a value (`MarkupLine { breaks, ..take(&mut current) }`) and queued
+                    queued = [x for e in s1 if e[0] == 'push' for x in e[2:] if isinstance(x, Agg) and x.adt.endswith('MarkupLine') and len(x.fields) > 1]
+                    if queued and all(isinstance(x.fields[1], (Const, kf.IntGe)) and (getattr(x.fields[1], 'v', None) or getattr(x.fields[1], 'n', 0)) for x in queued):
+                        how.add('markup line queued with breaks >= 1')
+                        continue
                     if any(isinstance(v, Agg) and v.variant == 'Break' for v in _stores(s1, 'start_bound')) or \
                             any(e[0] == 'store' and e[1].endswith('start_bound') for e in s1):
                         how.add('markup boundary from the space (Break)')
